@@ -39,7 +39,7 @@ def rand_quality(machine, part):
 
 def restore_later(machine, is_failure, part):
     if is_failure:
-        machine.env.schedule_event(machine.env.now + 1.5, -3, machine.restore_functionality, EventType.RESTORE)
+        machine.env.schedule_event(machine.env.now + 1.5, -1, machine.restore_functionality, EventType.RESTORE)
 
 
 def do_action(kind, a, b, rm, maint, env):
@@ -51,7 +51,7 @@ def do_action(kind, a, b, rm, maint, env):
         a.restore_functionality()
     elif kind == 'maint':
         a.shutdown()
-        env.schedule_event(env.now + b, -3, a.restore_functionality, EventType.RESTORE)
+        env.schedule_event(env.now + b, -1, a.restore_functionality, EventType.RESTORE)
     elif kind == 'wo':
         maint.create_work_order(a)
     elif kind == 'block':
